@@ -1,6 +1,6 @@
 (* Css/C08DeclProofs.v -- lemmas about the declaration pipeline model (Css/Decl.v):
    per-declaration independence, spelling irrelevance, shorthand semantics. *)
-From Coq Require Import List NArith ZArith QArith Bool Lia.
+From Coq Require Import List NArith ZArith QArith Qround Bool Lia.
 From Verif Require Import Css.DeclTok Css.Decl Css.VarSubst Css.C08Spec.
 Import ListNotations.
 
@@ -380,6 +380,328 @@ Section Shorthands.
 
 End Shorthands.
 
+(* ------------------------------------------------------------ columns = <'column-width'> || <'column-count'> *)
+
+Close Scope Q_scope.
+
+Lemma kw_auto_eq k : str_eqb k kw_auto = true -> k = kw_auto.
+Proof. apply str_eqb_eq. Qed.
+
+Lemma column_width_spec t :
+  match column_width [t] with
+  | Some v => css_col_width t v
+  | None => forall v, ~ css_col_width t v
+  end.
+Proof.
+  unfold column_width.
+  destruct t; cbn [get_length get_keyword andb orb];
+    try (change (str_eqb [] kw_auto) with false; cbv iota; intros v0 H; inversion H as [t' [v' [E _]]| |]; discriminate E).
+  - (* TIdent *)
+    destruct (str_eqb (ascii_lower v) kw_auto) eqn:E.
+    + constructor. exists v. split; [reflexivity|now apply kw_auto_eq].
+    + intros v0 H. inversion H as [t' [v' [E1 E2]]| |]; subst. inversion E1; subst.
+      rewrite E2 in E. discriminate.
+  - (* TNum *)
+    destruct (Qeq_bool v 0) eqn:E.
+    + constructor. now apply Qeq_bool_iff.
+    + change (str_eqb [] kw_auto) with false. cbv iota.
+      intros v0 H. inversion H as [t' [v' [E1 _]]|q i Hq|]; subst; [discriminate E1|].
+      apply Qeq_bool_iff in Hq. congruence.
+  - (* TDim *)
+    destruct (assoc (ascii_lower u) length_units) as [code|] eqn:Ea.
+    + destruct (Qle_bool 0 v) eqn:Eq.
+      * constructor; [now apply Qle_bool_iff|assumption].
+      * change (str_eqb [] kw_auto) with false. cbv iota.
+        intros v0 H. inversion H as [t' [v' [E1 _]]| |q i u' code' Hq Hc]; subst; [discriminate E1|].
+        apply Qle_bool_iff in Hq. congruence.
+    + change (str_eqb [] kw_auto) with false. cbv iota.
+      intros v0 H. inversion H as [t' [v' [E1 _]]| |q i u' code' Hq Hc]; subst; [discriminate E1|congruence].
+Qed.
+
+Lemma column_count_spec t :
+  match column_count [t] with
+  | Some v => css_col_count t v
+  | None => forall v, ~ css_col_count t v
+  end.
+Proof.
+  unfold column_count.
+  destruct t; cbn [get_keyword];
+    try (change (str_eqb [] kw_auto) with false; cbv iota; intros v0 H; inversion H as [t' [v' [E _]]|]; discriminate E).
+  - (* TIdent *)
+    destruct (str_eqb (ascii_lower v) kw_auto) eqn:E.
+    + constructor. exists v. split; [reflexivity|now apply kw_auto_eq].
+    + intros v0 H. inversion H as [t' [v' [E1 E2]]|]; subst. inversion E1; subst.
+      rewrite E2 in E. discriminate.
+  - (* TNum *)
+    destruct is_int.
+    + destruct (Qle_bool 1 v) eqn:E.
+      * constructor. now apply Qle_bool_iff.
+      * change (str_eqb [] kw_auto) with false. cbv iota.
+        intros v0 H. inversion H as [t' [v' [E1 _]]|q Hq]; subst; [discriminate E1|].
+        apply Qle_bool_iff in Hq. congruence.
+    + change (str_eqb [] kw_auto) with false. cbv iota.
+      intros v0 H. inversion H as [t' [v' [E1 _]]|]; subst. discriminate E1.
+Qed.
+
+(* what the expander needs to know about one component value *)
+Inductive cclass (t : tok) : Type :=
+| KAuto : str_eqb (get_keyword t) kw_auto = true ->
+          column_width [t] = Some (VKw kw_auto) -> column_count [t] = Some (VKw kw_auto) -> cclass t
+| KWidth v : str_eqb (get_keyword t) kw_auto = false ->
+             column_width [t] = Some v -> column_count [t] = None -> cclass t
+| KCount v : str_eqb (get_keyword t) kw_auto = false ->
+             column_width [t] = None -> column_count [t] = Some v -> cclass t
+| KBad : str_eqb (get_keyword t) kw_auto = false ->
+         column_width [t] = None -> column_count [t] = None -> cclass t.
+
+Lemma Qle_bool_false_1_of_0 q : Qeq_bool q 0 = true -> Qle_bool 1 q = false.
+Proof.
+  intros H. apply Qeq_bool_iff in H. destruct (Qle_bool 1 q) eqn:E; [|reflexivity].
+  apply Qle_bool_iff in E. rewrite H in E. unfold Qle in E. simpl in E. lia.
+Qed.
+
+Lemma classify t : cclass t.
+Proof.
+  destruct t; try (apply KBad; reflexivity).
+  - (* TIdent *)
+    destruct (str_eqb (ascii_lower v) kw_auto) eqn:E.
+    + apply KAuto; unfold column_width, column_count; cbn [get_length get_keyword]; rewrite E; reflexivity.
+    + apply KBad; unfold column_width, column_count; cbn [get_length get_keyword]; rewrite ?E; reflexivity.
+  - (* TNum *)
+    destruct (Qeq_bool v 0) eqn:E0.
+    + apply (KWidth _ (VDim 0 u_scalar)); [reflexivity| |].
+      * unfold column_width. cbn [get_length]. now rewrite E0.
+      * unfold column_count. rewrite (Qle_bool_false_1_of_0 _ E0). now destruct is_int.
+    + destruct is_int.
+      * destruct (Qle_bool 1 v) eqn:E1.
+        -- apply (KCount _ (VInt (Qfloor v))); [reflexivity| |].
+           ++ unfold column_width. cbn [get_length]. now rewrite E0.
+           ++ unfold column_count. now rewrite E1.
+        -- apply KBad; [reflexivity| |].
+           ++ unfold column_width. cbn [get_length]. now rewrite E0.
+           ++ unfold column_count. now rewrite E1.
+      * apply KBad; [reflexivity| |].
+        -- unfold column_width. cbn [get_length]. now rewrite E0.
+        -- reflexivity.
+  - (* TDim *)
+    destruct (assoc (ascii_lower u) length_units) as [code|] eqn:Ea.
+    + destruct (Qle_bool 0 v) eqn:Eq.
+      * apply (KWidth _ (VDim v code)); [reflexivity| |reflexivity].
+        unfold column_width. cbn [get_length orb]. now rewrite Ea, Eq.
+      * apply KBad; [reflexivity| |reflexivity].
+        unfold column_width. cbn [get_length get_keyword orb]. now rewrite Ea, Eq.
+    + apply KBad; [reflexivity| |reflexivity].
+      unfold column_width. cbn [get_length get_keyword orb]. now rewrite Ea.
+Qed.
+
+Lemma column_width_some_facts t v :
+  column_width [t] = Some v -> has_var t = false /\ is_default_kw (get_keyword t) = false.
+Proof.
+  destruct t; try discriminate; intros H; (split; [reflexivity|]); try reflexivity.
+  unfold column_width in H. cbn [get_length get_keyword] in *.
+  destruct (str_eqb (ascii_lower v0) kw_auto) eqn:E; [|discriminate].
+  apply kw_auto_eq in E. rewrite E. reflexivity.
+Qed.
+
+Lemma column_count_some_facts t v :
+  column_count [t] = Some v -> has_var t = false /\ is_default_kw (get_keyword t) = false.
+Proof.
+  destruct t; try discriminate; intros H; (split; [reflexivity|]); try reflexivity.
+  unfold column_count in H. cbn [get_keyword] in *.
+  destruct (str_eqb (ascii_lower v0) kw_auto) eqn:E; [|discriminate].
+  apply kw_auto_eq in E. rewrite E. reflexivity.
+Qed.
+
+Section Columns.
+  Variable known : str -> bool.
+  Variable validate : str -> list tok -> option value.
+  (* the validators of the two longhands are the real ones *)
+  Hypothesis validate_width : forall t, validate n_column_width [t] = column_width [t].
+  Hypothesis validate_count : forall t, validate n_column_count [t] = column_count [t].
+
+  Notation vns := (validate_non_shorthand known validate).
+  Notation cols := (columns_expander known validate).
+
+  Lemma vns_width t v :
+    column_width [t] = Some v -> vns n_column_width [t] true = Some (mkNP n_column_width v []).
+  Proof.
+    intros H. destruct (column_width_some_facts _ _ H) as [Hv Hd].
+    unfold validate_non_shorthand. change (is_custom_name n_column_width) with false. cbv iota.
+    cbn [negb andb existsb get_single_keyword orb]. rewrite Hv, Hd. cbn [orb]. cbv iota.
+    now rewrite validate_width, H.
+  Qed.
+
+  Lemma vns_count t v :
+    column_count [t] = Some v -> vns n_column_count [t] true = Some (mkNP n_column_count v []).
+  Proof.
+    intros H. destruct (column_count_some_facts _ _ H) as [Hv Hd].
+    unfold validate_non_shorthand. change (is_custom_name n_column_count) with false. cbv iota.
+    cbn [negb andb existsb get_single_keyword orb]. rewrite Hv, Hd. cbn [orb]. cbv iota.
+    now rewrite validate_count, H.
+  Qed.
+
+  Lemma column_count_tok_auto : column_count [tok_auto] = Some (VKw kw_auto).
+  Proof. reflexivity. Qed.
+  Lemma column_width_tok_auto : column_width [tok_auto] = Some (VKw kw_auto).
+  Proof. reflexivity. Qed.
+
+  (* what the expander returns, by the classes of the component values *)
+  Definition columns_both (vw vc : value) : option (list nprop) :=
+    Some [mkNP n_column_width vw []; mkNP n_column_count vc []].
+
+  Ltac run :=
+    unfold columns_expander, generic_expander, find_var, expand_columns;
+    cbn [get_single_keyword existsb orb];
+    repeat match goal with
+           | H : has_var _ = false |- _ => rewrite H
+           | H : is_default_kw (get_keyword _) = false |- _ => rewrite H
+           | H : str_eqb (get_keyword _) kw_auto = _ |- _ => rewrite H
+           end;
+    cbn [orb]; cbv iota;
+    cbn [columns_loop];
+    repeat match goal with
+           | H : column_width [_] = _ |- _ => rewrite H
+           | H : column_count [_] = _ |- _ => rewrite H
+           end;
+    cbn [is_some andb negb]; cbv iota;
+    cbn -[validate_non_shorthand column_width column_count tok_auto];
+    repeat match goal with
+           | H : column_width [?t] = Some _ |- context [validate_non_shorthand _ _ n_column_width [?t] true] =>
+               rewrite (vns_width t _ H)
+           | H : column_count [?t] = Some _ |- context [validate_non_shorthand _ _ n_column_count [?t] true] =>
+               rewrite (vns_count t _ H)
+           | |- context [validate_non_shorthand _ _ n_column_count [tok_auto] true] =>
+               rewrite (vns_count tok_auto _ column_count_tok_auto)
+           | |- context [validate_non_shorthand _ _ n_column_width [tok_auto] true] =>
+               rewrite (vns_width tok_auto _ column_width_tok_auto)
+           end;
+    try reflexivity.
+
+  Lemma cols_one a :
+    has_var a = false -> is_default_kw (get_keyword a) = false ->
+    cols [a] = match column_width [a], column_count [a] with
+               | Some vw, _ => columns_both vw (VKw kw_auto)
+               | None, Some vc => columns_both (VKw kw_auto) vc
+               | None, None => None
+               end.
+  Proof.
+    intros Hv Hd. destruct (classify a) as [Hk Hw Hc|v Hk Hw Hc|v Hk Hw Hc|Hk Hw Hc]; run.
+  Qed.
+
+  (* two values: the one that is a width goes to column-width and the one that is a
+     count to column-count, whatever the order; `auto` fits both *)
+  Lemma cols_two a b :
+    has_var a = false -> has_var b = false ->
+    cols [a; b] = match column_width [a], column_count [b], column_width [b], column_count [a] with
+                  | Some vw, Some vc, _, _ => columns_both vw vc
+                  | _, _, Some vw, Some vc => columns_both vw vc
+                  | _, _, _, _ => None
+                  end.
+  Proof.
+    intros Ha Hb.
+    destruct (classify a) as [Hk Hw Hc|v Hk Hw Hc|v Hk Hw Hc|Hk Hw Hc];
+      destruct (classify b) as [Hk' Hw' Hc'|v' Hk' Hw' Hc'|v' Hk' Hw' Hc'|Hk' Hw' Hc']; run.
+  Qed.
+
+  (* ---- columns = <'column-width'> || <'column-count'> ---- *)
+
+  Lemma css_width_sound t v : css_col_width t v -> column_width [t] = Some v.
+  Proof.
+    intros H. pose proof (column_width_spec t) as S.
+    destruct (column_width [t]) as [v'|]; [|now destruct (S v)].
+    f_equal. destruct H as [t [x [-> Hx]]|q i Hq|q i u code Hq Hc]; inversion S as [t' [x' [E1 E2]]|q' i' Hq'|q' i' u' code' Hq' Hc']; subst;
+      try reflexivity; try discriminate E1; try congruence.
+  Qed.
+
+  Lemma css_count_sound t v : css_col_count t v -> column_count [t] = Some v.
+  Proof.
+    intros H. pose proof (column_count_spec t) as S.
+    destruct (column_count [t]) as [v'|]; [|now destruct (S v)].
+    f_equal. destruct H as [t [x [-> Hx]]|q Hq]; inversion S as [t' [x' [E1 E2]]|q' Hq']; subst;
+      try reflexivity; try discriminate E1; try congruence.
+  Qed.
+
+  Lemma width_count_auto t vw vc :
+    column_width [t] = Some vw -> column_count [t] = Some vc -> vw = VKw kw_auto /\ vc = VKw kw_auto.
+  Proof.
+    intros Hw Hc. destruct (classify t) as [_ Hw' Hc'|v _ Hw' Hc'|v _ Hw' Hc'|_ Hw' Hc']; try congruence.
+    split; congruence.
+  Qed.
+
+  (* Soundness: a value of the `columns` grammar sets exactly the two longhand
+     values CSS assigns, in whichever order the components are written. *)
+  Theorem columns_spec tokens vw vc :
+    columns_means tokens vw vc -> cols tokens = columns_both vw vc.
+  Proof.
+    intros H. destruct H as [w vw Hw|c vc Hc|w c vw vc Hw Hc|w c vw vc Hw Hc].
+    - apply css_width_sound in Hw. destruct (column_width_some_facts _ _ Hw) as [Hv Hd].
+      rewrite (cols_one w Hv Hd), Hw. reflexivity.
+    - apply css_count_sound in Hc. destruct (column_count_some_facts _ _ Hc) as [Hv Hd].
+      rewrite (cols_one c Hv Hd), Hc.
+      destruct (column_width [c]) as [vw|] eqn:Ew; [|reflexivity].
+      destruct (width_count_auto _ _ _ Ew Hc) as [-> ->]. reflexivity.
+    - apply css_width_sound in Hw. apply css_count_sound in Hc.
+      destruct (column_width_some_facts _ _ Hw) as [Hv _]. destruct (column_count_some_facts _ _ Hc) as [Hv' _].
+      rewrite (cols_two w c Hv Hv'), Hw, Hc. reflexivity.
+    - apply css_width_sound in Hw. apply css_count_sound in Hc.
+      destruct (column_width_some_facts _ _ Hw) as [Hv _]. destruct (column_count_some_facts _ _ Hc) as [Hv' _].
+      rewrite (cols_two c w Hv' Hv), Hw, Hc.
+      destruct (column_width [c]) as [vw'|] eqn:Ew; [|reflexivity].
+      destruct (column_count [w]) as [vc'|] eqn:Ec; [|reflexivity].
+      destruct (width_count_auto _ _ _ Ew Hc) as [-> ->]. destruct (width_count_auto _ _ _ Hw Ec) as [-> ->].
+      reflexivity.
+  Qed.
+
+  (* the order of the two components never matters (valid or not) *)
+  Theorem columns_order_insensitive a b :
+    has_var a = false -> has_var b = false -> cols [a; b] = cols [b; a].
+  Proof.
+    intros Ha Hb. rewrite (cols_two a b Ha Hb), (cols_two b a Hb Ha).
+    destruct (column_width [a]) as [wa|] eqn:Ewa, (column_count [b]) as [cb|] eqn:Ecb,
+             (column_width [b]) as [wb|] eqn:Ewb, (column_count [a]) as [ca|] eqn:Eca; try reflexivity.
+    destruct (width_count_auto _ _ _ Ewa Eca) as [-> ->]. destruct (width_count_auto _ _ _ Ewb Ecb) as [-> ->].
+    reflexivity.
+  Qed.
+
+  (* three or more components: always invalid (one of the two longhands is named twice) *)
+  Lemma cols_three a b c r :
+    existsb has_var (a :: b :: c :: r) = false -> cols (a :: b :: c :: r) = None.
+  Proof.
+    intros Hv. unfold columns_expander, generic_expander, find_var. rewrite Hv.
+    cbn [get_single_keyword]. change (is_default_kw []) with false. cbv iota.
+    unfold expand_columns. cbn [columns_loop].
+    destruct (is_some (column_width [a]) && negb (str_eqb [] n_column_width))%bool;
+      [|destruct (is_some (column_count [a])); [|reflexivity]];
+      (destruct (is_some (column_width [b]) && _)%bool; [|destruct (is_some (column_count [b])); [|reflexivity]]);
+      (destruct (is_some (column_width [c]) && _)%bool; [|destruct (is_some (column_count [c])); [|reflexivity]]);
+      (destruct (columns_loop r _) as [[out last]|]; [|reflexivity]); reflexivity.
+  Qed.
+
+  (* Completeness: a value outside the grammar is dropped *)
+  Theorem columns_reject tokens :
+    tokens <> [] -> existsb has_var tokens = false -> is_default_kw (get_single_keyword tokens) = false ->
+    (forall vw vc, ~ columns_means tokens vw vc) -> cols tokens = None.
+  Proof.
+    intros Hne Hv Hd Hno.
+    destruct tokens as [|a [|b [|c r]]]; [contradiction| | |now apply cols_three].
+    - cbn [existsb] in Hv. rewrite orb_false_r in Hv. cbn [get_single_keyword] in Hd.
+      rewrite (cols_one a Hv Hd).
+      pose proof (column_width_spec a) as Sw. pose proof (column_count_spec a) as Sc.
+      destruct (column_width [a]) as [vw|]; [exfalso; apply (Hno vw (VKw kw_auto)); now constructor|].
+      destruct (column_count [a]) as [vc|]; [exfalso; apply (Hno (VKw kw_auto) vc); now constructor|reflexivity].
+    - cbn [existsb] in Hv. rewrite orb_false_r in Hv. apply orb_false_iff in Hv as [Ha Hb].
+      rewrite (cols_two a b Ha Hb).
+      pose proof (column_width_spec a) as Swa. pose proof (column_count_spec a) as Sca.
+      pose proof (column_width_spec b) as Swb. pose proof (column_count_spec b) as Scb.
+      destruct (column_width [a]) as [wa|], (column_count [b]) as [cb|];
+        try (exfalso; apply (Hno wa cb); now apply CmWC);
+        destruct (column_width [b]) as [wb|], (column_count [a]) as [ca|];
+        try reflexivity; exfalso; apply (Hno wb ca); now apply CmCW.
+  Qed.
+End Columns.
+
+Open Scope Q_scope.
+
 (* ------------------------------------------------------------ the modelled validators read only the projection *)
 
 Lemma get_keyword_proj t : get_keyword (proj_tok t) = get_keyword t.
@@ -420,8 +742,11 @@ Section Leaves.
            end; inversion Ef; subst f; clear Ef;
       destruct ts as [|t [|t2 r]]; try reflexivity; cbn [map];
       unfold length_perc_or_auto, length_or_percentage, bleed, border_width, border_style,
-             other_colors, color_prop, visibility, get_single_keyword, dim_value;
-      rewrite ?get_length_proj, ?get_keyword_proj, ?pc_proj; reflexivity.
+             other_colors, color_prop, visibility, column_width, column_count, outline_style, outline_color,
+             get_single_keyword, dim_value;
+      rewrite ?get_length_proj, ?get_keyword_proj, ?pc_proj; try reflexivity;
+      (* column-count looks at the number token itself, which the projection leaves alone *)
+      destruct t; try reflexivity; cbn [proj_tok]; now destruct (is_custom_name v).
   Qed.
 End Leaves.
 
